@@ -1609,6 +1609,10 @@ int asn1_time_to_str(int utc_time, time_t timestamp, char *str)
 	time_t day;
 	char *p = str;
 
+	if (timestamp < 0) {
+		error_print();
+		return -1;
+	}
 	utc_time &= 1;
 	day = timestamp / 86400;
 	second = timestamp % 86400;
